@@ -32,6 +32,8 @@ class Ctx(object):
         self.assumptions = []
         self.functions = set()     # functions under contract
         self.inlined = set()
+        self.callee_contracts = set()     # contracts applied at call sites (callers see only the contract)
+        self.modelled = set()             # constructors / methods replaced by a stated model or stub
         self.trusted = set()
         self.samples = []
         self.undecided_no_route = []
@@ -188,6 +190,8 @@ class Ctx(object):
             samples=self.samples[:12] or [o for o in self.obligations[:6]],
             functions_under_contract=sorted(self.functions),
             inlined_callees=sorted(self.inlined), trusted_callees=sorted(self.trusted),
+            callee_contracts_applied=sorted(self.callee_contracts),
+            modelled_or_stubbed=sorted(self.modelled),
             proved_obligations=[o for o in self.obligations],
             undecided=[o['name'] for o in und],
             bounded=self.bounded,
